@@ -899,6 +899,63 @@ class Execution:
                 raise Violation('shared-moltype-differs', expected='molecules named %s have identical written topologies' % name,
                                 actual={'first': diff[0], 'other': diff[1]}, signature='shared-moltype-differs:library', detail=repr(op))
             self.stats.probes['moltype_shared_checked'] += 1
+        self.top_for_system(op, system, [self.slots[s][1] for s in slots], names)
+
+    def top_for_system(self, op, system, models, names):
+        """Write the .top and the ITPs of the named system with the real write_gmx_topology (through the deferred writer,
+        in a scratch directory) and read them back: [molecules] must list the types in system order with correct counts
+        and every type file must be included exactly once."""
+        import os
+        import shutil
+        import tempfile
+        from vermouth.system import System
+        from vermouth.gmx.topology import write_gmx_topology
+        from vermouth.file_writer import DeferredFileWriter
+        from . import peval
+        for model in models:
+            writable = (model.nrexcl is not None and len(model.nodes) > 0
+                        and all(all(r in a for r in itpcheck.REQUIRED) for a in model.nodes.values())
+                        and not any(m.get('ifdef') is not None and m.get('ifndef') is not None
+                                    for items in model.inter.values() for _, _, m in items))
+            if not writable:
+                return
+        system2 = System()
+        for mol, name in zip(system.molecules, names):
+            cp = mol.copy()
+            cp.meta['moltype'] = name
+            cp.citations = {'vermouth'}
+            cp._force_field = None
+            system2.molecules.append(cp)
+        system2.meta['header'] = ['written by vsim']
+        scratch = tempfile.mkdtemp(prefix='vsim-top-', dir=core.scratch_base())
+        cwd = os.getcwd()
+        writer = DeferredFileWriter()
+        writer.open_files.clear()
+        try:
+            os.chdir(scratch)
+            out = self.call(write_gmx_topology, system2, 'topol.top', itp_paths={}, defines=())
+            self.expect_ok(out, op)
+            writer.write()
+            files = {fn: open(os.path.join(scratch, fn)).read() for fn in os.listdir(scratch)}
+        finally:
+            os.chdir(cwd)
+            writer.open_files.clear()
+            shutil.rmtree(scratch, ignore_errors=True)
+        top = peval.parse_top(files.get('topol.top', ''))
+        expanded = [n for n, c in top['molecules'] for _ in range(c)]
+        if expanded != names or any(c < 1 for _, c in top['molecules']):
+            raise Violation('molecules-section', expected=names, actual=top['molecules'], signature='molecules-section',
+                            detail=repr(op))
+        incs = [i for i in top['includes'] if i != 'martini.itp']
+        for name in set(names):
+            if incs.count('%s.itp' % name) != 1 or ('%s.itp' % name) not in files:
+                raise Violation('include-once', expected='%s.itp included once and written' % name,
+                                actual={'includes': top['includes'], 'files': sorted(files)}, signature='include-once:library',
+                                detail=repr(op))
+        self.stats.probes['top_written_and_read'] += 1
+        runs = [n for i, n in enumerate(names) if i == 0 or names[i - 1] != n]
+        if len(runs) > len(set(runs)):
+            self.stats.probes['top_interleaved_types'] += 1
 
     def op_itp(self, op, slot, moltype):
         """C02 observation: write the state reached by this history and read it back."""
@@ -1394,7 +1451,7 @@ class C03MCheck(_MolCheck):
             'the k-th coordinate record of each molecule must be the k-th [atoms] line; NameMolType runs on systems of copies and edited '
             'copies and molecules sharing a name must have identical written topologies. distinct = scenario digest; non-trivial = at '
             'least one system written and compared')
-    probes_expected = ['coords_vs_itp_pdb', 'coords_vs_itp_gro', 'coords_vs_itp_order_disagrees', 'moltype_shared', 'moltype_shared_checked']
+    probes_expected = ['coords_vs_itp_pdb', 'coords_vs_itp_gro', 'coords_vs_itp_order_disagrees', 'moltype_shared', 'moltype_shared_checked', 'top_written_and_read', 'top_interleaved_types']
 
     def budgets(self, tier):
         if tier == 'thorough':
